@@ -274,6 +274,8 @@ def run_tree(case):
     ical = c.to_ical()
     copies = [("deepcopy", lambda: copy.deepcopy(c))] + [(f"pickle{pr}", (lambda pr=pr: pickle.loads(pickle.dumps(c, pr)))) for pr in PROTOCOLS]
     copies.append(("parse", lambda: Component.from_ical(ical)))
+    # the serialisation that keeps insertion order is a serialisation too: its parse is a copy of the whole tree
+    copies.append(("parse-unsorted", lambda: Component.from_ical(c.to_ical(sorted=False))))
     for label, mk in copies:
         try:
             d = mk()
